@@ -89,7 +89,7 @@ def load_storage_device(d, basis: int):
 def load_supply_device(d, basis: int):
   device_id = d['title'] if 'title' in d else d['type']
   bounds = -1*run_to_array(d['bounds'])
-  bounds = np.array([bounds[:,1], bounds[:,0]])
+  bounds = np.stack((bounds[:,1], bounds[:,0]), axis=1)
   cbounds = load_cbounds(d)
   params = {}
   cost_function = load_cost_function(d, bounds, cbounds, basis)
